@@ -66,6 +66,14 @@ R = {
    text="TLC explores all interleavings (depth 4, thorough 6) of prepare-cache / revoke-other / revoke-self / update-witness / prove / attack on one credential in NonRev.tla and checks its invariants; every history is executed on a real credential and accumulator chain: honest proofs must verify and embed the accumulator index the specification says they were made against (also after a cached commitment was refreshed), revocation must be reported, and 14 manipulations of each proof (fields, accumulator substitution, transplant from another holder, stripped part, disclosed witness attribute) must be rejected; known finding D10 is constructed deliberately.",
    note="Sigma-protocol soundness assumed; freshness policy is the application's; same-index accumulators re-signed at another time are don't-care; D10 (map-order ambiguity of the witness attribute) is a known finding.",
    tech="TLA+ state machine + TLC exhaustive exploration; generated histories and attacks replayed on the real code"),
+ "C07": dict(engine="Randomness.tla, NonrevCache.tla", design="5/C07, 13",
+   text="Randomness.tla gives every commitment randomiser a fresh identifier and TLC checks NoReuse, SingleConsumer and NotAlsoCached over all sequences of up to 3 (5) operations on two credentials; NonrevCache.tla checks the same for every interleaving on the cache. Every emitted sequence runs on real credentials: all randomisers and randomised elements of all proofs (read through verif accessors) must be pairwise distinct, each prepared non-revocation builder consumed once, and the two-transcript extractor must fail on every pair of proofs; TLC-generated interleavings of the cache protocol are established on real goroutines through blocking hooks.",
+   note="Reuse only (not statistical quality); builder objects used for one CreateProof each; 1024-bit keys; schedules of 2 preparers + 2 (3) provers.",
+   tech="TLA+ state machines + TLC exhaustive model checking; generated sequences and interleavings replayed on the real code (scheduler-gate hooks)"),
+ "C20": dict(engine="NonrevCache.tla, CPRNG.tla", design="5/C20, 13",
+   text="TLC checks NoRace and the cache invariants on NonrevCache.tla and NoKeystreamOverlap/GapFree on CPRNG.tla (with pre-fix variants as vacuity probes); TLC-generated interleavings of the cache protocol are established on real goroutines through blocking hooks; reservations of concurrent CPRNG reads are logged at the atomic add, checked against the re-derived AES-CTR keystream and validated as a tiling by CPRNGTrace.tla; a free-running stress of 2..64 goroutines with varied GOMAXPROCS is built with the race detector, whose reports are violations, and every concurrently produced proof is verified.",
+   note="Bounded interleavings replayed, scheduler-produced ones validated - not all schedules of 64 goroutines; the race detector is the monitor of the stress run; key-generation worker schedules are covered by C16.",
+   tech="TLA+ process models + TLC; schedule replay through scheduler-gate hooks; trace validation of recorded reservations; race-detector-monitored stress"),
  "C10": dict(engine="RevAuth.tla", design="5/C10, 13",
    text="TLC explores every update message an adversary can assemble from a genuine one by up to 2 mutations plus JSON/CBOR transport in RevAuth.tla and checks that the transcribed acceptance predicates imply authenticity; every single-mutation message (thorough: plus a seeded sample of double mutations) is materialised byte for byte and fed to Update.Verify, Witness.Update, EventList.Verify, Update.Prepend and Hash.Equal in memory and after real JSON/CBOR round trips.",
    note="Hash injective and signatures unforgeable in the model; chains of 3 events, 2 chains under one key; toy moduli; the unserialised SignedAccumulator.Accumulator memo is clear on received messages.",
